@@ -44,6 +44,18 @@ def run_mode(ctx, mode, count, pid, collide=False, oracle=None):
     sm = []
     for c in cases:
         sm += oracle(c) if oracle else l2common.refmap_oracle(c, collide=collide)
+    # the model reproduces the recorded defects of the code exactly: where the implementation's reply differs from the
+    # model's AND violates the reference map, the violation is not one of the recorded findings -- report it as such
+    # (a concrete failing history) instead of leaving it to the known-finding filter
+    mmkeys = {(m["case"]["i"], m.get("op_index")) for m in mm if "case" in m and m.get("differs") == "reply"}
+    extra = []
+    for v in sm:
+        if (v.get("case", {}).get("i"), v.get("op_index")) in mmkeys:
+            v2 = dict(v)
+            v2["kind"] = "unexplained:" + v["kind"]
+            v2["what"] = v["what"] + " (the model, which carries every recorded finding, answers differently here)"
+            extra.append(v2)
+    sm = extra + sm
     nt = {vlib.sha([c["cfg"], [(o["op"], o.get("k"), o.get("v"), o.get("rev")) for o in c["ops"]]]) for c in cases if is_nontrivial(c)}
     samples = [dict(cfg={k: c["cfg"][k] for k in ("nb", "height", "filemax", "splitcap", "checkvhash")},
                     ops=" ".join(o["op"] for o in c["ops"])[:200],
